@@ -16,7 +16,7 @@ row of a position to the row of its cyclic predecessor (`lf_mapping`), so follow
 final sentinel walks through the rows of positions 0, 1, 2, … .
 -/
 namespace RbV.InvBWT
-open RbV RbV.Kasai RbV.LF RbV.OccM
+open RbV RbV.Kasai RbV.LFMap RbV.OccM
 
 def bwtfindGo : List Nat → Nat → List Nat → List Nat → List Nat
   | [], _, _, bf => bf
